@@ -39,6 +39,7 @@ EXC_PARENT = {
     'ConnectionResetError': 'ConnectionError', 'AssertionError': 'Exception', 'UnicodeError': 'ValueError',
     'UnicodeDecodeError': 'UnicodeError', 'UnicodeEncodeError': 'UnicodeError', 'struct.error': 'Exception',
     'InvalidSignature': 'Exception', 'InvalidTag': 'Exception', 'InvalidKey': 'Exception',
+    'NonTermination': 'BaseException',     # engine verdict: the program provably never leaves a loop on this input
     'binascii.Error': 'ValueError', 'MemoryError': 'Exception', 'ImportError': 'Exception',
     're.error': 'Exception', 'json.JSONDecodeError': 'ValueError', 'UnsupportedAlgorithm': 'Exception',
 }
@@ -414,6 +415,7 @@ class Ctx:
 
     def choose(self, n):
         """non-deterministic choice among n alternatives (all explored)"""
+        self.n_nondet = getattr(self, 'n_nondet', 0) + 1
         if self.pure:
             raise NeedFork()
         if self.pos < len(self.decisions):
